@@ -2471,7 +2471,9 @@ namespace xsimd
             {
                 B x = select(test, B(2.), a);
 #ifndef XSIMD_NO_INFINITIES
-                auto inf_result = (a == constants::infinity<B>());
+                // gamma overflows beyond 35.04 (float) / 171.62 (double): such lanes yield +inf at once, which also
+                // keeps the number of iterations of the recurrence below independent of the argument
+                auto inf_result = (a > B(std::is_same<typename B::value_type, float>::value ? 36. : 172.));
                 x = select(inf_result, B(2.), x);
 #endif
                 B z = B(1.);
@@ -2501,7 +2503,7 @@ namespace xsimd
                 }
                 x = z * tgamma_kernel<B>::compute(x - B(2.));
 #ifndef XSIMD_NO_INFINITIES
-                return select(inf_result, a, x);
+                return select(inf_result, constants::infinity<B>(), x);
 #else
                 return x;
 #endif
